@@ -37,6 +37,13 @@ EmitKey == LET key == KeyOf(c) IN
   PrintT(<<"CASE", ToJson([k |-> "key", key |-> key, h1 |-> H1Ascii(key),
                            tok |-> IF key = <<>> THEN <<>> ELSE Murmur3TokenAscii(key)])>>)
 
+\* keys with a published or constructed token
+SpecialKeys == << MinTokenKey, <<104, 101, 108, 108, 111>>,
+                  <<0, 16, 67, 39, 82, 159, 182, 69, 221, 0, 184, 131, 236, 57, 174, 68, 139, 184, 0, 0, 4, 0, 6, 106, 107, 0>> >>
+InitSpecial == c \in [s : 1 .. Len(SpecialKeys)]
+EmitSpecial == LET key == SpecialKeys[c.s] IN
+  PrintT(<<"CASE", ToJson([k |-> "key", key |-> key, h1 |-> H1Ascii(key), tok |-> Murmur3TokenAscii(key)])>>)
+
 \* ------------------------------------------------------------------ routing keys
 Fill(n, b) == [i \in 1 .. n |-> b]
 Comp(t, n, b) == [t |-> t, n |-> n, b |-> b]
